@@ -141,6 +141,15 @@ def pairs(D, rng):
                     dict(linear_coefficients=(0.0, 0.0, nu), nonlinear_coefficients=(0.0, -1.3, 0.0))))
     out.append(("KuramotoSivashinsky", dict(gradient_norm_scale=0.7, second_order_scale=0.03, fourth_order_scale=0.0004), "GeneralNonlinearStepper",
                 dict(linear_coefficients=(0.0, 0.0, -0.03, 0.0, -0.0004), nonlinear_coefficients=(0.0, 0.0, -0.7))))
+    # non-default options on both sides: in 1D the mixed KdV forms coincide with the unmixed one (dispersivity != 1); the reaction steppers and
+    # the generic polynomial stepper honour the same requested dealiasing fraction
+    if D == 1:
+        out.append(("KortewegDeVries", dict(convection_scale=-2.0, diffusivity=nu, dispersivity=0.6, hyper_diffusivity=ze, advect_over_diffuse=True, diffuse_over_diffuse=True),
+                    "GeneralConvectionStepper", dict(linear_coefficients=(0.0, 0.0, nu, -0.6, -ze), convection_scale=-2.0)))
+    out.append(("FisherKPP", dict(diffusivity=nu, reactivity=1.5, dealiasing_fraction=1.0), "GeneralPolynomialStepper",
+                dict(linear_coefficients=(1.5 / D, 0.0, nu), polynomial_coefficients=(0.0, 0.0, -1.5), dealiasing_fraction=1.0)))
+    out.append(("AllenCahn", dict(diffusivity=nu, first_order_coefficient=0.8, third_order_coefficient=-1.2, dealiasing_fraction=2 / 3), "GeneralPolynomialStepper",
+                dict(linear_coefficients=(0.8 / D, 0.0, nu), polynomial_coefficients=(0.0, 0.0, 0.0, -1.2), dealiasing_fraction=2 / 3)))
     # the zeroth-order (reaction / drag) coefficient: every generic family documents the same linear operator Sum_j a_j Sum_d (d/dx_d)^j,
     # i.e. D * a_0 at order 0; Fisher-KPP r u (1 - u) is also the general nonlinear stepper with b_0 = -r
     out.append(("FisherKPP", dict(diffusivity=nu, reactivity=1.5), "GeneralNonlinearStepper",
